@@ -97,6 +97,8 @@ class Check(object):
     trusted = ()
     rule = ''
     checker_cmd = 'cd lean && lake build && lake env lean <#print axioms file>'
+    # opt-in: report a correspondence break even when (only) known findings were seen in the same run
+    strict_correspondence = True
 
     def explore(self, tier, seed):
         raise NotImplementedError
@@ -154,13 +156,17 @@ class Check(object):
         monitor_fail = [f for f in ex.failures if f.kind == 'monitor']
         corr_fail = [f for f in ex.failures if f.kind != 'monitor']
         obligations.append(('correspondence:model-vs-implementation', not corr_fail))
+        mon_idx = len(obligations)
         obligations.append(('monitor:implementation-traces', not monitor_fail))
 
         searched = False
-        if (corr_fail or broken_build) and not monitor_fail:
+        quiet = not monitor_fail
+        if self.strict_correspondence:
+            quiet = all(self.classify(f, known) is not None for f in monitor_fail)
+        if (corr_fail or broken_build) and quiet:
             searched = True
             try:
-                monitor_fail = self.search(tier, seed, corr_fail)
+                monitor_fail = monitor_fail + self.search(tier, seed, corr_fail)
             except common.MachineryError as e:
                 print('MACHINERY-ERROR property=%s %s' % (prop, e))
                 return 2
@@ -183,7 +189,7 @@ class Check(object):
                                                           'case': f.case, 'details': f.details, 'seed': seed})
             lines.append('VIOLATION property=%s replay=%s' % (prop, path))
             violations = len(unlisted)
-        elif (corr_fail or broken_build) and not seen_known:
+        elif (corr_fail or broken_build) and (self.strict_correspondence or not seen_known):
             # the property is no longer shown to hold, but no failing input was found
             payload = {'property': prop, 'seed': seed, 'searched': searched}
             if broken_build:
@@ -198,6 +204,9 @@ class Check(object):
             lines.append('VIOLATION property=%s replay=%s no-failing-input-found' % (prop, path))
             violations = max(1, len(corr_fail))
 
+        # a rejected trace that matches a listed (open) known finding is accounted for by that finding's
+        # `_partial` theorem + proved counterexample; the monitor obligation is "no UNLISTED rejection"
+        obligations[mon_idx] = ('monitor:implementation-traces (no unlisted rejection)', not unlisted)
         n_obl = len(obligations)
         n_dis = sum(1 for _n, d in obligations if d)
         coverage = {
